@@ -17,8 +17,9 @@ import (
 )
 
 type verifUser struct {
-	Name  string `query:"name" form:"name" json:"name" xml:"name"`
-	Extra string `query:"extra" form:"extra" json:"extra" xml:"extra"` // only ever present in the query string
+	Name  string   `query:"name" form:"name" json:"name" xml:"name"`
+	Extra string   `query:"extra" form:"extra" json:"extra" xml:"extra"` // only ever present in the query string
+	Tags  []string `query:"tags" form:"tags" json:"tags" xml:"tags"`     // one value that contains a comma
 }
 
 // verifStrict has a rule that its zero value violates.
@@ -98,17 +99,17 @@ func verifHarness_C18_auto() {
 	// supported media type), so that a wrongly selected decoder would succeed and be noticed
 	switch {
 	case want == "form" || sub == "x-www-form-urlencoded":
-		body = "name=f"
+		body = "name=f&tags=a%2C+b"
 	case want == "json" || sub == "json":
 		body = `{"name":"j"}`
 	case want == "xml" || sub == "xml":
 		body = `<verifUser><name>x</name></verifUser>`
 	case want == "multipart" || sub == "form-data":
-		body = "--x\r\nContent-Disposition: form-data; name=\"name\"\r\n\r\nm\r\n--x--\r\n"
+		body = "--x\r\nContent-Disposition: form-data; name=\"name\"\r\n\r\nm\r\n--x\r\nContent-Disposition: form-data; name=\"tags\"\r\n\r\na, b\r\n--x--\r\n"
 	}
 	// emptySrc: the selected source carries no key at all (no query string, empty form)
 	emptySrc := verifChoice("emptySource", 2) == 1
-	rawQuery := "name=q&extra=e"
+	rawQuery := "name=q&extra=e&tags=a%2C+b"
 	if emptySrc {
 		rawQuery = ""
 		if want == "form" {
@@ -123,9 +124,9 @@ func verifHarness_C18_auto() {
 	req.Body = rb
 	if verifSymbolic() && !emptySrc {
 		// tag the maps the stubs hand out, so that the decoded map identifies its source
-		req.PostForm = url.Values{"__source": {"postform"}}
-		req.Form = url.Values{"__source": {"form+query"}}
-		verifSetGhost("URL.Query", url.Values{"__source": {"query"}})
+		req.PostForm = url.Values{"__source": {"postform"}, "tags": {"a, b"}}
+		req.Form = url.Values{"__source": {"form+query"}, "tags": {"a, b"}}
+		verifSetGhost("URL.Query", url.Values{"__source": {"query"}, "tags": {"a, b"}})
 	}
 	var obj verifUser
 	var strictObj verifStrict
@@ -147,7 +148,8 @@ func verifHarness_C18_auto() {
 	verifAssert(k == "", "automatic binding does not panic")
 	if !verifSymbolic() && emptySrc {
 		// nothing to bind: the value stays zero, which the validator (when on) must reject
-		if want == "query" || want == "form" {
+		// (a Content-Type without a type part is refused by net/http's own form parser: its contract)
+		if want == "query" || (want == "form" && typ != "") {
 			verifAssert((err != nil) == validator, "a successful bind implies the value passed validation (empty source, required field)")
 		}
 		return
@@ -160,11 +162,11 @@ func verifHarness_C18_auto() {
 		case "error":
 			verifAssert(err != nil && obj.Name == "", "an unsupported Content-Type yields an error and binds nothing")
 		case "query":
-			verifAssert(err == nil && obj.Name == "q" && obj.Extra == "e", "methods without a body bind the query string")
+			verifAssert(err == nil && obj.Name == "q" && obj.Extra == "e" && len(obj.Tags) == 1 && obj.Tags[0] == "a, b", "methods without a body bind the query string")
 		case "form":
-			verifAssert(err == nil && obj.Name == "f" && obj.Extra == "", "url-encoded form bodies are bound from the body form only")
+			verifAssert(err == nil && obj.Name == "f" && obj.Extra == "" && len(obj.Tags) == 1 && obj.Tags[0] == "a, b", "url-encoded form bodies are bound from the body form only")
 		case "multipart":
-			verifAssert(err == nil && obj.Name == "m" && obj.Extra == "", "multipart bodies are bound from the multipart form only")
+			verifAssert(err == nil && obj.Name == "m" && obj.Extra == "" && len(obj.Tags) == 1 && obj.Tags[0] == "a, b", "multipart bodies are bound from the multipart form only")
 		case "json":
 			verifAssert(err == nil && obj.Name == "j" && obj.Extra == "", "JSON bodies are bound from JSON only")
 		case "xml":
@@ -175,10 +177,11 @@ func verifHarness_C18_auto() {
 	nQuery, nParse, nMulti := verifCountEvents("URL.Query"), verifCountEvents("ParseForm"), verifCountEvents("ParseMultipartForm")
 	nForm, nJSON, nXML, nVal := verifCountEvents("formam.Decode"), verifCountEvents("json.Decode"), verifCountEvents("xml.Decode"), verifCountEvents("Validate")
 	if !emptySrc && (want == "query" || want == "form" || want == "multipart") && nForm == 1 {
-		src := ""
+		src, tags := "", ""
 		for i := 0; i < verifEventCount(); i++ {
 			if verifEventKind(i) == "formam.Decode" {
 				src = verifEventStr(i, 0)
+				tags = verifEventStr(i, 1)
 			}
 		}
 		if want == "query" {
@@ -186,6 +189,7 @@ func verifHarness_C18_auto() {
 		} else {
 			verifAssert(src == "postform", "the parsed body form (not the merged form+query map) is decoded")
 		}
+		verifAssert(tags == "1:a, b", "the decoder receives the source's values as they are (one value stays one value)")
 	}
 	switch want {
 	case "error":
@@ -222,4 +226,33 @@ func verifHarness_C18_auto() {
 		}
 	}
 	verifCover("C18 source " + want)
+}
+
+// Malformed input never makes a binder panic: an arbitrary short body (every
+// byte value) through the JSON and XML branches of Auto and through the
+// explicit binders.  Symbolically the decoders are stubs, so what is explored
+// is rux's own handling of the body before and after decoding; natively the
+// real decoders run.
+func verifHarness_C18_malformed() {
+	xmlKind := verifChoice("format", 2) == 1
+	n := verifLen("body_len", 0, verifParam("B"))
+	body := verifString("body", n)
+	ct := "application/json"
+	if xmlKind {
+		ct = "text/xml; charset=utf-8"
+	}
+	req := &http.Request{Method: "POST", URL: &url.URL{Path: "/"}, Header: http.Header{"Content-Type": {ct}}}
+	req.Body = &verifBody{strings.NewReader(body)}
+	var obj verifUser
+	k := verifCatch(func() { _ = Auto(req, &obj) })
+	verifAssert(k == "", "automatic binding of an arbitrary body does not panic")
+	k = verifCatch(func() {
+		if xmlKind {
+			_ = XML.BindBytes([]byte(body), &obj)
+		} else {
+			_ = JSON.BindBytes([]byte(body), &obj)
+		}
+	})
+	verifAssert(k == "", "binding arbitrary bytes does not panic")
+	verifCover("C18 arbitrary body")
 }
